@@ -142,6 +142,10 @@ pub struct StateWorld<A: StateApi> {
     used: [bool; MAX_IDS],
     expected_lib_drops: Vec<u32>,
     observer_on: bool,
+    /// StateIds taken from an unrelated channel that has seen j publications (index j); lets a
+    /// request run *ahead* of this channel (a subscriber that kept its id across a re-created channel)
+    donor: Vec<StateId>,
+    foreign: bool,
     k: usize,
     realism: u64,
     weights: [u32; NW],
@@ -282,7 +286,7 @@ impl<A: StateApi> StateWorld<A> {
         if k == 0 {
             Some(StateId::new())
         } else {
-            self.ids.get(k).copied().flatten()
+            self.ids.get(k).copied().flatten().or_else(|| if self.foreign { self.donor.get(k).copied() } else { None })
         }
     }
 }
@@ -300,7 +304,18 @@ impl<A: StateApi> World for StateWorld<A> {
         for (i, w) in weights.iter_mut().enumerate() {
             *w = cfg_get(cfg, WK[i], 10) as u32;
         }
+        let foreign = cfg_get(cfg, "foreign", 0) != 0;
+        let mut donor = vec![StateId::new()];
+        if foreign {
+            let d = futures_intrusive::channel::LocalStateBroadcastChannel::<u8>::new();
+            for _ in 0..MAX_PUBS + 2 {
+                let _ = d.send(0);
+                donor.push(d.try_receive(StateId::new()).map(|(id, _)| id).unwrap_or_else(StateId::new));
+            }
+        }
         StateWorld {
+            donor,
+            foreign,
             futs: Arena::new(),
             txs,
             rxs,
@@ -385,8 +400,12 @@ impl<A: StateApi> World for StateWorld<A> {
             return None;
         }
         // bias requests towards the newest known id (the follower pattern)
+        let (foreign, n_now) = (self.foreign, self.n());
         let pick_req = |rng: &mut Rng| -> usize {
-            if rng.pct(60) {
+            if foreign && rng.pct(15) {
+                // an id this channel has not handed out (yet): ahead of, or unobserved in, this channel
+                (n_now + rng.below(3) as usize).min(MAX_PUBS + 1)
+            } else if rng.pct(60) {
                 *known.last().unwrap()
             } else {
                 *rng.pick(&known)
@@ -439,6 +458,9 @@ impl<A: StateApi> World for StateWorld<A> {
                             env.slot_create(id, 0, 0);
                             if k < self.n() && k + 1 < self.n() {
                                 env.fault("request_older_than_latest");
+                            }
+                            if k > self.n() {
+                                env.fault("request_ahead_of_channel");
                             }
                         }
                     }
@@ -693,6 +715,7 @@ fn draw_cfg(rng: &mut Rng) -> Cfg {
         let f = *rng.pick(&[0u32, 1, 1, 1, 2, 3]);
         c.insert(WK[i].into(), (*b * f) as i64);
     }
+    c.insert("foreign".into(), rng.pct(35) as i64);
     c.insert("w0".into(), cfg_get(&c, "w0", 200).max(100));
     c.insert("w1".into(), cfg_get(&c, "w1", 300).max(150));
     c.insert("w3".into(), cfg_get(&c, "w3", 130).max(60));
@@ -719,7 +742,7 @@ fn dispatch_replay(cfg: &Cfg, ops: &[Op], env: &mut Env) {
 }
 
 fn shrink_cfg() -> Vec<(&'static str, Vec<i64>)> {
-    vec![("observer", vec![1])]
+    vec![("observer", vec![1]), ("foreign", vec![0])]
 }
 
 fn shrink_op(op: Op) -> Vec<Op> {
